@@ -1,0 +1,66 @@
+//go:build verif
+
+// Package verifhook marks places where verification tooling may steer goroutine
+// scheduling. With the verif build tag a plan can force the order in which
+// goroutines pass each named point (used to replay schedule counterexamples).
+package verifhook
+
+import (
+	"sync"
+	"time"
+)
+
+var (
+	mu       sync.Mutex
+	plan     map[string][]int // name -> arrival ordinals (1-based) in the order they must pass
+	arrivals = map[string]int{}
+	passed   = map[string]int{}
+	changed  = make(chan struct{})
+)
+
+// SetPlan installs the passage order for the named points.
+func SetPlan(p map[string][]int) {
+	mu.Lock()
+	defer mu.Unlock()
+	plan = p
+	arrivals = map[string]int{}
+	passed = map[string]int{}
+}
+
+// Point blocks the calling goroutine until the plan says it is its turn to pass
+// (or a time-out expires, so that a plan that does not fit cannot dead-lock a run).
+func Point(name string) {
+	mu.Lock()
+	order := plan[name]
+	if order == nil {
+		mu.Unlock()
+		return
+	}
+	arrivals[name]++
+	me := arrivals[name]
+	pos := -1
+	for i, a := range order {
+		if a == me {
+			pos = i
+			break
+		}
+	}
+	if pos < 0 {
+		mu.Unlock()
+		return
+	}
+	deadline := time.Now().Add(3 * time.Second)
+	for passed[name] < pos && time.Now().Before(deadline) {
+		ch := changed
+		mu.Unlock()
+		select {
+		case <-ch:
+		case <-time.After(50 * time.Millisecond):
+		}
+		mu.Lock()
+	}
+	passed[name]++
+	close(changed)
+	changed = make(chan struct{})
+	mu.Unlock()
+}
